@@ -41,6 +41,10 @@ Do(lt) == LET a == Apply(l, nmt, lt) IN
 Init == l = Lss0 /\ nmt = 2 /\ hist = <<>> /\ prev = <<>> /\ gh = TRUE
 Next == \E lt \in Letters : Do(lt)
 InvC18 == gh
+\* C20 (LSS part) on the reference: what a reset communication leaves is the freshly initialised slave, except
+\* that the persisted configuration (the application's storage, not the stack's) has been loaded
+FreshFromL(ll) == [Lss0 EXCEPT !.node = IF ll.has THEN ll.sNode ELSE ll.node, !.sNode = ll.sNode, !.sBaud = ll.sBaud, !.has = ll.has]
+InvC20L == ResetCom(l) = FreshFromL(l)
 RECURSIVE RunLetters(_, _, _, _)
 RunLetters(ll, m, ls, acc) ==
   IF ls = <<>> THEN acc
